@@ -13,16 +13,20 @@ Next == i < Len(Trace) /\ i' = i + 1
 
 Changed(g0, g) == {k \in DOMAIN g0 \cup DOMAIN g : k \notin DOMAIN g0 \/ k \notin DOMAIN g \/ g0[k] # g[k]}
 
-\* first step at which the behaviour leaves the specification, 0 if none
-BadSteps(r) == {j \in 1..Len(r.steps) : r.steps[j].g # r.g0 \/ r.steps[j].res # r.fresh[r.steps[j].src]}
+\* The verdict is on the property's observables only: the result of every assembly of the history equals the
+\* result of the same source in a fresh process (hence repeatability).  A change of the global projection is the
+\* MECHANISM by which independence is usually lost; it is reported as a diagnostic (clause "drift: ...") and does
+\* not by itself fail the check (a harmless cache would change it too).
+BadSteps(r) == {j \in 1..Len(r.steps) : r.steps[j].res # r.fresh[r.steps[j].src]}
+GSteps(r) == {j \in 1..Len(r.steps) : r.steps[j].g # r.g0}
 
 Clause(r) ==
     LET B == BadSteps(r) IN
-    IF B = {} THEN "ok"
-    ELSE LET j == CHOOSE x \in B : \A y \in B : x <= y
-             st == r.steps[j] IN
-         IF st.g # r.g0 THEN "global state changed by step " \o ToString(j) \o " (" \o st.src \o "): " \o ToString(Changed(r.g0, st.g))
-         ELSE "result of " \o st.src \o " at step " \o ToString(j) \o " differs from a fresh process"
+    IF B # {} THEN LET j == CHOOSE x \in B : \A y \in B : x <= y IN
+                   "result of " \o r.steps[j].src \o " at step " \o ToString(j) \o " differs from a fresh process"
+    ELSE IF GSteps(r) # {} THEN LET j == CHOOSE x \in GSteps(r) : \A y \in GSteps(r) : x <= y IN
+                   "drift: global state changed by step " \o ToString(j) \o " (" \o r.steps[j].src \o "): " \o ToString(Changed(r.g0, r.steps[j].g))
+    ELSE "ok"
 
 Judge == i = 0 \/ LET r == Trace[i] c == Clause(r) IN
                   IF c = "ok" THEN TRUE ELSE PrintT(ToJson([id |-> r.id, clause |-> c]))
